@@ -6,8 +6,17 @@ package hopserver
 // admissions overlap. Real goroutines, released through a spin barrier; the
 // interleaving is the Go scheduler's (plus drawn runtime.Gosched counts), so
 // detection is probabilistic but a reported violation is always genuine.
+//
+// Mode "store" (also registered for C06: "a confirmation only if the target ... stored the
+// grant"): real goroutines call AddAuthGrant at the same time for ONE (user, key) - some of
+// them for another key of the same user - while others may log in as that pair; afterwards
+// the server map is drained. Every grant whose AddAuthGrant returned nil (that return is
+// what the target instance turns into the confirmation) must come out of the store exactly
+// once: handed to one of the overlapping admissions or still there at the drain - never
+// lost, never handed out twice.
 
 import (
+	"fmt"
 	"runtime"
 	"sync"
 	"sync/atomic"
@@ -25,9 +34,139 @@ type c07ConcCase struct {
 	Grants     int   `json:"grants"`
 	Rounds     int   `json:"rounds"`
 	Yields     []int `json:"yields"` // Gosched calls per goroutine before the admission call
+	// mode "store": Goroutines adders store Per grants each for (alice, K[Keys[g % len]]); Logins further goroutines
+	// try to be admitted as (alice, K[Keys[0]]) Per times each while the adders run.
+	Mode   string `json:"mode,omitempty"` // "" = admission race for stored grants; "store" = concurrent AddAuthGrant (+ logins), then drain
+	Per    int    `json:"per,omitempty"`
+	Keys   []int  `json:"keys,omitempty"`
+	Logins int    `json:"logins,omitempty"`
+}
+
+// c07StoreRun: mode "store".
+func c07StoreRun(c c07ConcCase, v *vlib.Verdict) {
+	restore := verifAuthzInstallThunks(func() time.Time { return verifAuthzT0 })
+	defer restore()
+	z := verifAuthzNewServer(true)
+	id := c07eID()
+	keys := c.Keys
+	if len(keys) == 0 {
+		keys = []int{1}
+	}
+	per := max(c.Per, 1)
+	for round := 0; round < c.Rounds; round++ {
+		var ready atomic.Int32
+		var wg sync.WaitGroup
+		var mu sync.Mutex
+		confirmed := map[string]int{} // command text (unique per call) -> key index, for every AddAuthGrant that returned nil
+		received := map[string]int{}  // command text -> number of times an admission handed the grant out
+		wrongKey := ""
+		total := c.Goroutines + c.Logins
+		collect := func(k int, ags []authgrants.Authgrant) {
+			mu.Lock()
+			defer mu.Unlock()
+			for _, a := range ags {
+				cmd := a.AssociatedData.CommandGrantData.Cmd
+				received[cmd]++
+				if a.DelegateCert.PublicKey != verifAuthzKey(k) {
+					wrongKey = cmd
+				}
+			}
+		}
+		barrier := func(y int) {
+			ready.Add(1)
+			for ready.Load() < int32(total) {
+				runtime.Gosched()
+			}
+			for i := 0; i < y; i++ {
+				runtime.Gosched()
+			}
+		}
+		yield := func(g int) int {
+			if len(c.Yields) == 0 {
+				return 0
+			}
+			return c.Yields[g%len(c.Yields)]
+		}
+		for g := 0; g < c.Goroutines; g++ {
+			wg.Add(1)
+			go func(g int) {
+				defer wg.Done()
+				k := keys[g%len(keys)] % verifAuthzNKeys
+				// the intents are built before the barrier: only the store calls overlap
+				ins := make([]*authgrants.Intent, per)
+				for j := range ins {
+					ins[j] = verifAuthzIntent("alice", k, authgrants.Command, fmt.Sprintf("cmd-%d-%d-%d", round, g, j), verifAuthzAt(-10), verifAuthzAt(1000))
+				}
+				barrier(yield(g))
+				for _, in := range ins {
+					if err := z.S.AddAuthGrant(in); err == nil {
+						mu.Lock()
+						confirmed[in.AssociatedData.CommandGrantData.Cmd] = k
+						mu.Unlock()
+					}
+				}
+			}(g)
+		}
+		for l := 0; l < c.Logins; l++ {
+			wg.Add(1)
+			go func(l int) {
+				defer wg.Done()
+				k := keys[0] % verifAuthzNKeys
+				barrier(yield(c.Goroutines + l))
+				for j := 0; j < per; j++ {
+					if ags, err := z.S.AuthorizeKeyAuthGrant("alice", verifAuthzKey(k)); err == nil {
+						collect(k, ags)
+					}
+					runtime.Gosched()
+				}
+			}(l)
+		}
+		wg.Wait()
+		// drain what is still stored
+		for k := 0; k < verifAuthzNKeys; k++ {
+			if ags, err := z.S.AuthorizeKeyAuthGrant("alice", verifAuthzKey(k)); err == nil {
+				collect(k, ags)
+			}
+		}
+		if wrongKey != "" {
+			v.Failf(id+":grant-handed-to-another-key:concurrent-store", "round %d: grant %q came out of the store under a key it does not name", round, wrongKey)
+			return
+		}
+		for cmd := range confirmed {
+			switch n := received[cmd]; {
+			case n == 0:
+					v.Failf(id+":grant-confirmed-but-not-stored:concurrent-store", "round %d: AddAuthGrant returned nil for grant %q (one of %d confirmed in this round by %d goroutines storing at the same time, %d concurrent logins), but neither an admission nor the final drain of the server map received it: it was never stored or was overwritten; received: %v",
+					round, cmd, len(confirmed), c.Goroutines, c.Logins, received)
+				return
+			case n > 1:
+				v.Failf(id+":grant-handed-out-twice:concurrent-store", "round %d: grant %q (stored once) was handed to %d admissions (%d goroutines storing at the same time, %d concurrent logins)", round, cmd, n, c.Goroutines, c.Logins)
+				return
+			}
+		}
+		for cmd, n := range received {
+			if _, ok := confirmed[cmd]; !ok {
+				v.Failf(id+":unknown-grant-in-store:concurrent-store", "round %d: the store handed out grant %q (%d times) that no successful AddAuthGrant of this round stored", round, cmd, n)
+				return
+			}
+		}
+		if len(confirmed) != c.Goroutines*per {
+			v.Inconclusive = fmt.Sprintf("round %d: only %d of %d AddAuthGrant calls succeeded with authgrants enabled", round, len(confirmed), c.Goroutines*per)
+			return
+		}
+	}
+	v.NonTrivial = c.Goroutines >= 2
+	v.Labelf("store:adders=%d", c.Goroutines)
+	v.Labelf("store:logins=%d", min(c.Logins, 1))
+	if len(keys) > 1 {
+		v.Label("store:several-keys-of-one-user")
+	}
 }
 
 func c07ConcRun(c c07ConcCase, v *vlib.Verdict) {
+	if c.Mode == "store" {
+		c07StoreRun(c, v)
+		return
+	}
 	restore := verifAuthzInstallThunks(func() time.Time { return verifAuthzT0 })
 	defer restore()
 	z := verifAuthzNewServer(true)
@@ -82,7 +221,29 @@ func c07ConcRun(c c07ConcCase, v *vlib.Verdict) {
 }
 
 func TestVerifC07ConcurrentAdmission(t *testing.T) {
-	vlib.Drive(t, vlib.Spec[c07ConcCase]{ID: c07eID(), Quick: 400, Run: c07ConcRun, Gen: func(t *rapid.T) c07ConcCase {
+	quick := 800
+	if verifRace {
+		quick = 400
+	}
+	vlib.Drive(t, vlib.Spec[c07ConcCase]{ID: c07eID(), Quick: quick, Run: c07ConcRun, Gen: func(t *rapid.T) c07ConcCase {
+		// C06 is only concerned with "confirmed => stored"; for C05 / C07 half of the cases are store races
+		if c07eID() == "C06" || rapid.IntRange(0, 1).Draw(t, "store") == 1 {
+			c := c07ConcCase{
+				Mode:       "store",
+				Goroutines: rapid.IntRange(2, 6).Draw(t, "adders"),
+				Per:        rapid.IntRange(1, 3).Draw(t, "per"),
+				Rounds:     rapid.SampledFrom([]int{50, 200}).Draw(t, "rounds"),
+				Yields:     rapid.SliceOfN(rapid.IntRange(0, 3), 0, 6).Draw(t, "yields"),
+				Keys:       []int{1},
+			}
+			if rapid.IntRange(0, 2).Draw(t, "several-keys") == 0 {
+				c.Keys = rapid.SliceOfN(rapid.IntRange(0, verifAuthzNKeys-1), 2, 4).Draw(t, "keys")
+			}
+			if rapid.IntRange(0, 2).Draw(t, "with-logins") == 0 {
+				c.Logins = rapid.IntRange(1, 3).Draw(t, "logins")
+			}
+			return c
+		}
 		return c07ConcCase{
 			Goroutines: rapid.IntRange(2, 6).Draw(t, "goroutines"),
 			Grants:     rapid.IntRange(1, 3).Draw(t, "grants"),
